@@ -150,12 +150,12 @@ class Emitter:
     def drv_begin(self, sc):
         fl = self.fl
         if fl.c99:
-            return "yybegin(%d, yyscanner)" % sc
+            return "yybegin(%s, yyscanner)" % sc
         if fl.cxx:
-            return "lexer->vf_begin(%d)" % sc
+            return "lexer->vf_begin(%s)" % sc
         if fl.r:
-            return "vf_begin_r(%d, yyscanner)" % sc
-        return "yybegin(%d)" % sc
+            return "vf_begin_r(%s, yyscanner)" % sc
+        return "yybegin(%s)" % sc
 
     def drv_start(self):
         fl = self.fl
@@ -215,6 +215,9 @@ class Emitter:
         elif k == "begin":
             o.append("%s%s; vf_evi(%s, \"B\", %s);" % (ind, self.drv_begin(op[1]), C,
                                                       self.drv_start()))
+        elif k == "begin_param":
+            o.append("%s%s; vf_evi(%s, \"B\", %s);" % (
+                ind, self.drv_begin("(int) %s->bufsize" % C), C, self.drv_start()))
         elif k == "create":
             size = op[3] if len(op) > 3 and op[3] else "YY_BUF_SIZE"
             o.append('%svf_X(%s, "create %d %d");' % (ind, C, op[1], op[2]))
@@ -312,12 +315,14 @@ class Emitter:
         case, o, fl = self.case, self.o, self.fl
         L = []
         body = []      # rules section
+        self._rule_pos = {}
 
         def emit_rule(i, own_scs):
             r = case["rules"][i]
             r2 = dict(r)
             r2["scs"] = own_scs
             txt = self.rule_text(r2)
+            self._rule_pos[i] = (len(body), txt.count("\n"))
             if r["act"] == "|":
                 body.append("%s\t|" % txt)
                 return
@@ -455,6 +460,18 @@ class Emitter:
         for name, node in case.get("defs", []):
             L.append("%s\t%s" % (name, self.def_text(node)))
         L.append("%%")
+        # line (1-based) on which the pattern of rule i starts / ends in the specification
+        base = sum(x.count("\n") + 1 for x in L)
+        starts = []
+        acc = base
+        for x in body:
+            starts.append(acc + 1)
+            acc += x.count("\n") + 1
+        self.rule_first_line = {}
+        self.rule_last_line = {}
+        for i, (bi, nl) in self._rule_pos.items():
+            self.rule_first_line[i] = starts[bi]
+            self.rule_last_line[i] = starts[bi] + nl
         L += body
         L.append("%%")
         L += drv
